@@ -47,7 +47,7 @@ var profiles = map[string]Profile{
 		Initials: []int64{-1, -1, 1, 7},
 		W:        map[string]int{"set": 35, "rm": 16, "save": 14, "rollback": 5, "reopen": 10, "load": 5, "prune": 3, "lvfo": 4, "read": 10, "reopenat": 3, "staleidx": 3, "failedopen": 3, "dvfrom": 8}},
 	// C03: ICS-23 proofs for every key of every kind of tree
-	"C03": {Name: "C03", MinOps: 6, MaxOps: 40, Keys: 7, EmptyVals: false, ObsEvery: 0,
+	"C03": {Name: "C03", MinOps: 6, MaxOps: 40, Keys: 7, EmptyVals: false, NoEmptyKey: true, ObsEvery: 0,
 		Initials: []int64{-1, -1, 1, 7, 1 << 40},
 		W:        map[string]int{"set": 40, "rm": 16, "save": 14, "rollback": 2, "reopen": 3, "prune": 3, "proofs": 12}},
 	"C03e": {Name: "C03e", MinOps: 6, MaxOps: 25, Keys: 5, EmptyVals: true, ObsEvery: 0,
